@@ -7,8 +7,9 @@ NAME=$1; SRC=$2; PROP=${3:-}
 WT=/var/tmp/seedwt.$NAME; B=/var/tmp/seedvx.$NAME
 rm -rf "$WT" "$B"; git -C /repo worktree prune
 git -C /repo worktree add -q --detach "$WT" HEAD || exit 3
-OUT=/verif/seeded/$NAME; mkdir -p "$OUT"
-cp "$SRC/patch.diff" "$OUT/patch.diff"; cp "$SRC/demo.rs" "$OUT/demo.rs"; [ -f "$SRC/README.md" ] && cp "$SRC/README.md" "$OUT/agent_README.md"
+V=${VERIF_DIR:-/verif}
+OUT=$V/seeded/$NAME; mkdir -p "$OUT"
+[ "$SRC" -ef "$OUT" ] || { cp "$SRC/patch.diff" "$OUT/patch.diff"; cp "$SRC/demo.rs" "$OUT/demo.rs"; [ -f "$SRC/README.md" ] && cp "$SRC/README.md" "$OUT/agent_README.md"; }
 cd "$WT"
 # 1. demo passes on the original
 cp "$OUT/demo.rs" indextree/tests/seed_demo.rs
@@ -23,22 +24,22 @@ timeout 900 cargo test --offline -q -p indextree --test seed_demo > "$B.demo_mut
 rm indextree/tests/seed_demo.rs
 echo "confirm: demo_on_original_exit=$DEMO_ORIG (want 0)  suite_with_change_exit=$SUITE (want 0)  demo_with_change_exit=$DEMO_MUT (want !=0)"
 # 4. the checks
-cd /verif
+cd $V
 RES=""
-for p in $(python3 -c "import json;print(' '.join(c['property_id'] for c in json.load(open('/verif/MANIFEST.json'))['checks']))"); do
+for p in $(python3 -c "import json;print(' '.join(c['property_id'] for c in json.load(open('MANIFEST.json'))['checks']))"); do
   VX_REPO=$WT VX_BUILD=$B timeout 3000 ./check $p --tier ${TIER:-quick} > "$B.$p.log" 2>&1; rc=$?
   RES="$RES $p=$rc"
   if [ $rc -ne 0 ]; then grep -E "^(failed obligation|VIOLATION|UNDECIDED|KNOWN)" "$B.$p.log" | head -4 | sed "s/^/   [$p] /"; fi
 done
 echo "checks:$RES"
-python3 - "$NAME" "$PROP" "$DEMO_ORIG" "$SUITE" "$DEMO_MUT" "$RES" <<'PY'
+python3 - "$NAME" "$PROP" "$DEMO_ORIG" "$SUITE" "$DEMO_MUT" "$RES" "$V" <<'PY'
 import json,sys,os
-name,prop,do,su,dm,res=sys.argv[1:7]
+name,prop,do,su,dm,res,V=sys.argv[1:8]
 r={k:int(v) for k,v in (x.split('=') for x in res.split())}
 meta={"name":name,"breaks_property":prop,"confirmed":{"demo_passes_on_original":do=="0","existing_suite_passes_with_change":su=="0","demo_fails_with_change":dm!="0"},
  "commands":["git apply patch.diff (scratch worktree of /repo)","cargo test --workspace --offline","cargo test --offline -p indextree --test seed_demo (demo.rs copied to indextree/tests/seed_demo.rs)","VX_REPO=<worktree> ./check <ID> for every registered check"],
  "check_exit_codes":r,"detected_by":[k for k,v in r.items() if v==1],"undecided":[k for k,v in r.items() if v==2]}
-p='/verif/seeded/%s/meta.json'%name
+p=V+'/seeded/%s/meta.json'%name
 old=json.load(open(p)) if os.path.exists(p) else {}
 old.update(meta); json.dump(old,open(p,'w'),indent=1)
 PY
